@@ -10,7 +10,9 @@ PLAN = {
     'C18': dict(test='TestC18', mc=['MC_Codec_C18.cfg']),
     'C02': dict(test='TestC02', mc=['MC_Codec_C11.cfg']),
     'C15': dict(test='TestC15', mc=['MC_Codec_C11.cfg']),
-    'C01': dict(test='TestC01', mc=['MC_Codec_C11.cfg']),
+    'C01': dict(test='TestC01', mc=['MC_Codec_C11.cfg'], extra=[('./netdrv/', 'TestC01Recv')]),
+    'C16': dict(test='TestC16', pkg='./netdrv/', mc=[], sock=True),
+    'C20': dict(test='TestC20', pkg='./netdrv/', mc=[], lookup=True),
     'C12': dict(test='TestC12', mc=['MC_Codec_C11.cfg']),
     'C06': dict(test='TestC06', mc=['MC_Codec_Dpt.cfg']),
     'C07': dict(test='TestC07', mc=['MC_Codec_Dpt.cfg']),
@@ -29,6 +31,11 @@ ASSUME = {
             'the data-race clause is decided by the Go race detector (thorough tier)'],
     'C11': ['the reference layout (spec/Cemi.tla) is written from the cEMI specification; byte equality with it IS the property here',
             'the Go side only enumerates the domain and projects values to/from the record vocabulary (table-driven glue)'],
+    'C16': ['real loopback sockets; the kernel may coalesce the scripted TCP segments (reach, not soundness); "well-formed" = accepted by knxnet.Unpack on exactly the frame bytes',
+            'Sock.tla proves the framing argument for every segmentation of small abstract streams (TLC, incl. liveness of receiver termination)'],
+    'C20': ['real loopback / multicast sockets in real time: responses at least max(8 ms, timeout/3) before the deadline must be included, responses sent later than timeout + 25 ms must not; in between either is accepted',
+            'Discover: requests are not observable by a responder on the same host (multicast loopback is a sender-side option that Discover switches off), so OneRequest / DescribeHpai are judged for Describe only; if the group cannot be joined the discovery half is skipped',
+            'Lookup.tla (timed automaton of both calls) is model-checked exhaustively for up to 3 arrivals'],
     'C18': ['address text is tokenised by the harness (split on the separator, strconv.Atoi); lexical variants that Atoi itself accepts ("+5", "007") are outside the token model'],
 }
 
@@ -87,20 +94,53 @@ def run_theorems(work, pid, tier):
     return states, trans, detail
 
 
+def run_sock_model(work):
+    st = tr = 0
+    for c in ('MC_Sock_A.cfg', 'MC_Sock_B.cfg'):
+        rc, out = vlib.tlc(work, 'MC_Sock', cfg=c, workers=4, timeout=300, name='sock_' + c)
+        if 'Error:' in out:
+            print('MODEL-NOTE: Sock.tla (%s): TLC reports an error' % c)
+        a, b = vlib.tlc_states(out)
+        st += a
+        tr += b
+    return st, tr
+
+
 def check(pid, tier):
     t0 = time.time()
     w = vlib.Work(pid)
     try:
         known = vlib.load_known()
         states, trans, thm = run_theorems(w, pid, tier)
-        binary = vlib.build_test(w, './codec/', w.path('codec.test'), tags='verif')
         recfile = w.path('records.ndjson')
         env = vlib.goenv()
-        env.update(VERIF_OUT=recfile, VERIF_TIER=tier, VERIF_SEED=str(vlib.seed()))
-        p = subprocess.run([binary, '-test.run', '^%s$' % PLAN[pid]['test'], '-test.timeout', '0'], env=env, cwd=w.dir,
-                           stdout=subprocess.PIPE, stderr=subprocess.STDOUT, text=True)
-        if p.returncode != 0 or not os.path.exists(recfile):
-            raise vlib.Inconclusive('record logger failed:\n' + p.stdout[-3000:])
+        env.update(VERIF_TIER=tier, VERIF_SEED=str(vlib.seed()))
+        jobs = [(PLAN[pid].get('pkg', './codec/'), PLAN[pid]['test'])] + PLAN[pid].get('extra', [])
+        bins = {}
+        with open(recfile, 'w') as allrec:
+            for k, (pkg, test) in enumerate(jobs):
+                if pkg not in bins:
+                    bins[pkg] = vlib.build_test(w, pkg, w.path('bin%d.test' % k), tags='verif')
+                part = w.path('records_%d.ndjson' % k)
+                env['VERIF_OUT'] = part
+                p = subprocess.run([bins[pkg], '-test.run', '^%s$' % test, '-test.timeout', '0'], env=env, cwd=w.dir,
+                                   stdout=subprocess.PIPE, stderr=subprocess.STDOUT, text=True)
+                if not os.path.exists(part) or (p.returncode != 0 and os.path.getsize(part) == 0):
+                    raise vlib.Inconclusive('record logger %s failed:\n%s' % (test, p.stdout[-3000:]))
+                if p.returncode != 0:
+                    # the logger died (a panic escaped the library in a goroutine of its own, e.g. a socket receiver)
+                    allrec.write(json.dumps(dict(k='crash', test=test, out=p.stdout[-1500:])) + '\n')
+                allrec.write(open(part).read())
+        if PLAN[pid].get('lookup'):
+            for c in ('MC_Lookup_describe.cfg', 'MC_Lookup_discover.cfg'):
+                rc, out = vlib.tlc(w, 'Lookup', cfg=c, workers=4, timeout=300, name='lk_' + c)
+                if 'Error:' in out:
+                    print('MODEL-NOTE: Lookup.tla (%s): TLC reports an error' % c)
+                a, b = vlib.tlc_states(out)
+                states, trans = states + a, trans + b
+        if PLAN[pid].get('sock'):
+            states2, trans2 = run_sock_model(w)
+            states, trans = states + states2, trans + trans2
         bad, nrec, tstates = judge_records(w, recfile, pid)
         race_note = None
         if pid == 'C19' and tier == 'thorough':
@@ -153,7 +193,7 @@ def check(pid, tier):
                    rule='one evaluation = one input/output record of the real codec (distinct inputs by construction of the enumeration) '
                         'evaluated by TLC against the TLA+ reference specification',
                    reference_theorems=thm, known_findings={k: len(v) for k, v in kf.items()},
-                   exhaustive=(pid in ('C11', 'C18')))
+                   exhaustive=(pid in ('C11', 'C18')), real_sockets=bool(PLAN[pid].get('sock') or PLAN[pid].get('lookup') or PLAN[pid].get('extra')))
         vlib.write_evidence(pid, tier, 'model_checking', cov, ASSUME.get(pid, []), time.time() - t0, len(viol))
         print('%s %s: %d records of the real codec evaluated by TLC; %s' % (pid, tier, nrec, 'VIOLATIONS' if viol else 'held'))
         return rc
